@@ -49,6 +49,7 @@ func fullName(fn *ssa.Function) string { return fn.RelString(nil) }
 
 func (x *Exec) callFunc(st *State, fr *Frame, site ssa.Instruction, fn *ssa.Function, binds []Val, args []Val, where string, k func(*State, Val)) {
 	name := fullName(fn)
+	x.atCallAsserts(st, fr, name, fnParamNames(fn), args, where)
 	if x.intrinsic(st, fr, site, fn, name, args, where, k) {
 		return
 	}
@@ -179,11 +180,6 @@ type callBinding struct {
 func (x *Exec) modularCall(st *State, fr *Frame, site ssa.Instruction, fc *FuncContract, fn *ssa.Function, sig *types.Signature, pnames []string, args []Val, where string, k func(*State, Val)) {
 	x.E.noteContractUse(fc)
 	cname := fc.Name
-	ord := 0
-	if fr.callOrd != nil {
-		fr.callOrd[cname]++
-		ord = fr.callOrd[cname]
-	}
 	env := &Env{x: x, st: st, old: st, vars: map[string]Val{}, pkgPath: x.E.pkgOfContract(fc), fc: fc}
 	for i, n := range pnames {
 		if i < len(args) {
@@ -191,23 +187,6 @@ func (x *Exec) modularCall(st *State, fr *Frame, site ssa.Instruction, fc *FuncC
 		}
 	}
 	x.bindGhost(env, fc, st)
-	// at-call assertions of the caller's contract
-	if fr.fc != nil {
-		cenv := x.envFor(st, fr)
-		for i, n := range pnames {
-			if i < len(args) {
-				cenv.vars["arg."+n] = args[i]
-				cenv.vars[fmt.Sprintf("arg%d", i)] = args[i]
-			}
-		}
-		for ai := range fr.fc.Asserts {
-			a := &fr.fc.Asserts[ai]
-			if a.Ordinal == ord && (a.Callee == cname || a.Callee == shortName(cname)) {
-				x.E.markAssertUsed(fr.fc, ai)
-				x.oblige(st, "assert", labelOr(a.C, "at-call"), x.evalBool(cenv, a.C.E), a.C.Src, where)
-			}
-		}
-	}
 	for _, r := range fc.Requires {
 		g := x.evalBool(env, r.E)
 		x.oblige(st, "pre", shortName(cname)+":"+labelOr(r, "requires"), g, r.Src, where)
@@ -431,6 +410,7 @@ func (x *Exec) invoke(st *State, fr *Frame, site ssa.Instruction, c *ssa.CallCom
 	m := c.Method
 	rt := c.Value.Type()
 	tn := typeKey(rt)
+	x.atCallAsserts(st, fr, "("+tn+")."+m.Name(), nil, append([]Val{recv}, args...), where)
 	if x.invokeIntrinsic(st, fr, site, tn, m.Name(), recv, args, where, k) {
 		return
 	}
